@@ -357,7 +357,9 @@ func main() {
 		dcs := []int{0, 2, 256}
 		ids := []int64{0, 1, -1, 1 << 56}
 		hashes := []int64{0, -1}
-		urls := []string{"t:u", "t:https://example.com/a?b=c", "c253", "c254", "z1", "z256", "t:x,z300"}
+		// URL lengths cover every residue mod 4 on both sides of the TL short/long switch (the URL is the last field of a
+		// web-location id, so its final bytes are the final bytes of the payload)
+		urls := []string{"t:u", "t:ab", "t:abc", "t:abcd", "t:abcde", "t:https://example.com/a?b=c", "c252", "c253", "c254", "c255", "c256", "c257", "z1", "z256", "t:x,z300"}
 		vals := []string{"zero", "one", "neg", "mixed", "ext"}
 		if c.Thorough() {
 			dcs = []int{0, 1, 2, 5, 256, 65536, math.MaxInt32, math.MaxUint32}
